@@ -139,7 +139,7 @@ class Lab:
         return idx
 
 
-def one_exec(iname, placement, fail, order="short-first"):
+def one_exec(iname, placement, fail, order="short-first", enoent=False):
     from dvc_data.index.checkout import apply, compare
     from dvc_data.index.collect import collect
     from dvc_data.index.fetch import fetch
@@ -162,7 +162,7 @@ def one_exec(iname, placement, fail, order="short-first"):
         idx = lab.make_index(iname, placement, order=order)
         plans = {}
         for r, f in lab.ffs.items():
-            plans[r] = f.plan = Plan(fail_oids=fail)
+            plans[r] = f.plan = Plan(fail_oids=fail, enoent=enoent)
         before = {r: set(objects_only(store_snapshot(lab.stores[r].path))) for r in ("R1", "R2")}
         try:
             data = collect([idx], "remote", push=True)
@@ -315,8 +315,14 @@ def run_case(case):
                     "fault_rounds_skipped_on_defective_placement", 0) + 1
                 continue
         orders = ["short-first", "long-first"] if not case["faults"] else ["short-first"]
-        for fail, order in [(f, o) for f in fails for o in orders]:
-            viol, info = one_exec(iname, placement, list(fail), order)
+        runs = [(f, o, False) for f in fails for o in orders]
+        # single failures also as FileNotFoundError (ENOENT from the remote although the source object exists)
+        runs += [(f, orders[0], True) for f in fails if len(f) == 1]
+        for fail, order, enoent in runs:
+            viol, info = one_exec(iname, placement, list(fail), order, enoent)
+            if enoent:
+                viol = [(s_ + "/enoent", d_) for s_, d_ in viol]
+                res["vac"]["enoent_faults"] = res["vac"].get("enoent_faults", 0) + info["fired"]
             res["n"] += 1
             res["trans"] += 4
             res["vac"]["faults_fired"] += info["fired"]
@@ -333,7 +339,7 @@ def run_case(case):
                 if sig not in sigs:
                     sigs.add(sig)
                     res["viol"].append((sig, detail, {"index": iname, "placement": placement, "fail": list(fail),
-                                                      "order": order}))
+                                                      "order": order, "enoent": enoent}))
     res["outcomes"] = sorted(res["outcomes"])[:40]
     res["nontrivial"] = sorted(res["nontrivial"])
     if case.get("i") == 100:
@@ -342,7 +348,9 @@ def run_case(case):
 
 
 def replay(case):
-    return one_exec(case["index"], case["placement"], case["fail"], case.get("order", "short-first"))[0]
+    v = one_exec(case["index"], case["placement"], case["fail"], case.get("order", "short-first"),
+                 case.get("enoent", False))[0]
+    return [(s_ + "/enoent", d_) for s_, d_ in v] if case.get("enoent") else v
 
 
 def run(ctx):
@@ -362,7 +370,7 @@ def run(ctx):
         "fetch: the union of the fresh caches must equal the reachable set exactly and each entry's objects must "
         "be in its designated cache",
     ]
-    ctx.require("faults_fired", "multi_remote_placements", "role_fallback_placements")
+    ctx.require("faults_fired", "multi_remote_placements", "role_fallback_placements", "enoent_faults")
     cs = []
     nf = 48 if ctx.tier == "thorough" else 12
     step = max(1, len(ps) // nf)
